@@ -1625,6 +1625,29 @@ def _collect_try_structure(lines: List[str], start: int) -> Tuple[List[str], int
     return snippet, i
 
 
+def _names_bound_in_block(block: List[str]) -> Set[str]:
+    """Names that a ``def`` body binds itself (assignment targets, not declared ``global``)."""
+
+    indents = [len(line) - len(line.lstrip()) for line in block if line.strip()]
+    margin = min(indents) if indents else 0
+    try:
+        tree = ast.parse("\n".join(line[margin:] if line.strip() else "" for line in block))
+    except (SyntaxError, ValueError):
+        return set()
+    declared_global: Set[str] = set()
+    bound: Set[str] = set()
+    for node in ast.walk(tree):
+        if isinstance(node, (ast.Global, ast.Nonlocal)):
+            declared_global.update(node.names)
+        elif isinstance(node, (ast.Assign, ast.AnnAssign)):
+            targets = node.targets if isinstance(node, ast.Assign) else [node.target]
+            for target in targets:
+                for sub in ast.walk(target):
+                    if isinstance(sub, ast.Name) and isinstance(sub.ctx, ast.Store):
+                        bound.add(sub.id)
+    return bound - declared_global
+
+
 def _parse_function(
     name: str,
     params_src: str,
@@ -1682,6 +1705,13 @@ def _parse_function(
     child_ctx["vars"] = dict(ctx.get("vars", {}))
     child_ctx["var_types"] = dict(ctx.get("var_types", {}))
     child_ctx["var_declared"] = set(ctx.get("var_declared", set()))
+    # A name the body binds by plain assignment is LOCAL to the helper (Python's scope rule), even when the
+    # module has a variable of that name: forget the outer declaration, value and type so that the
+    # helper declares its own variable instead of writing the global.
+    for local_name in _names_bound_in_block(block):
+        child_ctx["var_declared"].discard(local_name)
+        child_ctx["vars"].pop(local_name, None)
+        child_ctx["var_types"].pop(local_name, None)
     child_ctx["_base_declared"] = set(child_ctx["var_declared"])
     child_ctx["globals"] = ctx.setdefault("globals", [])
     child_ctx["helpers"] = helpers_set
